@@ -26,7 +26,7 @@ LEVEL_NOTE = "Trusts lib/e5ref.py as the E5 reference; says nothing about values
 TECHNIQUE = "runtime differential oracle (reference codec) over generated inputs"
 SHARDS = {"quick": 8, "thorough": 16}
 TIMEOUT = {"quick": 240, "thorough": 3000}
-FLOORS = {"oracle.equal_values_of_other_kinds": 500, "accepted.dynamic-all-types": 1000, "oracle.encode": 2000, "oracle.decode_fresh": 2000, "oracle.decode_reused": 1000, "oracle.get": 2000,
+FLOORS = {"oracle.equal_values_of_other_kinds": 500, "oracle.set_twice": 300, "accepted.dynamic-all-types": 1000, "oracle.encode": 2000, "oracle.decode_fresh": 2000, "oracle.decode_reused": 1000, "oracle.get": 2000,
           "exhaustive.single_byte": 3 * 256, "dataitem.cases": 300, "boundary.len_256": 10, "boundary.len_65536": 1}
 
 
@@ -391,6 +391,52 @@ def _equal_values_of_other_kinds(ctx):
                 return
 
 
+def _set_twice(ctx):
+    """A Dynamic item (or a data item built on it) that is given a second plain value of another kind: what it then holds and
+    sends is what a fresh object given that value holds and sends - the type is chosen by the value, not by the history."""
+    rng = ctx.rng
+    V = sv.V
+    pool = [7, 0, 200, -3, 70000, 2 ** 40, "IDLE", "7", "12", "NO", "", "1", True, False, 1.5, -0.0, b"\x01\x02", b"7", [1, 2, 3], [7], ["a", "b"]]
+    which = rng.random()
+    if which < 0.5:
+        names = rng.sample(["A", "B", "BOOLEAN", "U1", "U2", "U4", "U8", "I1", "I2", "I4", "I8", "F4", "F8"], rng.randint(2, 6))
+        types = [sv.VCLS[n] for n in names]
+        make = lambda *a: V.Dynamic(types, *a)
+        label = "Dynamic[" + ",".join(names) + "]"
+    elif which < 0.65:
+        make = lambda *a: V.Dynamic([], *a)
+        label = "Dynamic[]"
+    else:
+        from secsgem.secs import data_items as DI
+        cls = getattr(DI, rng.choice(["SV", "V", "CPVAL", "CEID", "ECV", "RPTID", "VID", "ALID", "DATAID", "MID", "CPNAME", "DVVAL"]))
+        make = lambda *a: cls(*a)
+        label = cls.__name__
+    v1, v2 = rng.sample(pool, 2)
+    try:
+        fresh = make(v2)
+        want_bytes, want_val = fresh.encode(), fresh.get()
+    except Exception:
+        ctx.count("set_twice.second_value_not_accepted_by_a_fresh_object")
+        return
+    try:
+        obj = make(v1)
+        obj.encode()
+    except Exception:
+        ctx.count("set_twice.first_value_not_accepted")
+        return
+    ctx.count("oracle.set_twice")
+    ctx.case(("set-twice", label, repr(v1), repr(v2)), nontrivial=type(v1) is not type(v2))
+    wit = {"item": label, "first": repr(v1), "second": repr(v2), "fresh_object_sends": want_bytes}
+    try:
+        obj.set(v2)
+        got_bytes, got_val = obj.encode(), obj.get()
+    except Exception as exc:
+        ctx.violation(f"second-value-refused-by-a-used-object:{type(exc).__name__}", {**wit, "error": repr(exc)[:200]})
+        return
+    if got_bytes != want_bytes or type(got_val) is not type(want_val) or not sv.same_value(got_val, want_val, f4=True):
+        ctx.violation("value-set-on-a-used-object-is-sent-differently-than-on-a-fresh-one", {**wit, "used_object_sends": got_bytes, "used_object_holds": repr(got_val)[:80], "fresh_object_holds": repr(want_val)[:80]})
+
+
 def _dataitem_cases(ctx):
     """Every catalogued data item class x every allowed type: value within its length limit."""
     import inspect
@@ -591,3 +637,6 @@ def run(ctx):
             _plain_dynamic_case(ctx)
             if i % 40 == 9:
                 _equal_values_of_other_kinds(ctx)
+            if i % 20 == 19:
+                for _ in range(4):
+                    _set_twice(ctx)
